@@ -8,6 +8,8 @@ import Pyunicorn.Lemmas.CircuitGRat
 import Pyunicorn.Lemmas.CircuitFlow
 import Pyunicorn.Generated.ArithC18
 import Pyunicorn.Generated.StructC18
+import Pyunicorn.Lemmas.CircuitPy
+import Pyunicorn.Model.CircuitPyRun
 /-! # C18 — Resistive-network quantities obey circuit laws
 
 Model: `Pyunicorn/Model/Circuit.lean` (`ResNetwork` in exact rational arithmetic).
@@ -1821,5 +1823,152 @@ example (pinv : Nat → Mat → LMat) (r : Mat) :
   (update_body_matches_source pinv _ r).2
 
 end source_tie5
+
+
+/-! ## round 5: the update methods as written, executed statement by statement
+
+`translate/gen_C18.py` now also turns the *bodies* of `get_admittance`, `get_R`,
+`admittance_lapacian`, `update_admittance`, `update_R`, `update_resistances` and the `ResNetwork`
+part of `__init__` into Lean functions on the record `Py` of the object's attributes
+(`Model/CircuitPy.lean` fixes the meaning of the library calls used: `sparse.lil_matrix((N, N))`,
+`A[i, j] = v`, `np.diag`, builtin `sum`, array `-`, `edge_list()`, `np.linalg.pinv` = the parameter
+`pinv`).  The theorems below prove that these regenerated programs compute exactly the model's
+state machine — the filling loop over `edge_list()` *is* `admittance`, the Laplacian expression *is*
+`laplacian`, `update_R` / `update_resistances` / `__init__` *are* `step … .updR` / `State.update` /
+`State.init` — so every history theorem of this file is a statement about the code as written.
+Rounds 1–4 compared regenerated *shapes* (strings, call lists) with `rfl`; a reordered statement,
+a loop over another list, another target subscript, a store that is not dropped, a Laplacian from
+row sums … now changes a definition these proofs are about. -/
+section source_tie6
+open Pyunicorn.Generated.StructC18
+
+/-- no method body fell outside the translated fragment (otherwise the generated file holds a
+stub for it and this is `false`) -/
+theorem bodies_translated : pyBodiesTranslated = true := rfl
+
+/-- `get_admittance()` / `get_R()` return the held matrices; `admittance_lapacian()` as written
+(`np.diag(sum(self.get_admittance())) - self.get_admittance()`, builtin `sum` = sum of the rows)
+is the model's `laplacian` of the held admittance matrix -/
+theorem getters_match_source (p : Py) :
+    get_admittance p = p.abs.adm ∧ get_R p = p.abs.R
+      ∧ admittance_lapacian p = laplacian p.abs.n p.abs.adm := ⟨rfl, rfl, rfl⟩
+
+/-- **`update_admittance` as written** — a fresh empty `lil_matrix((N, N))`, then
+`for edge in list(self.edge_list()): sparse_Adm[edge[0], edge[1]] = 1./resistances[edge[0], edge[1]]`
+— computes the model's `admittance adj res` and touches nothing else (`AdjIn`: the adjacency
+matrix the network holds is `N × N`).  `fill_eq_admittance` (Lemmas) is the loop invariant: for
+*any* list enumerating the stored adjacency entries, in any order, with repetitions. -/
+theorem update_admittance_body_matches_source (pinv : Nat → Mat → LMat) (p : Py)
+    (h : AdjIn p.N p.adj) :
+    (update_admittance pinv p).abs = (step pinv p.abs .updAdm).1 := by
+  unfold update_admittance
+  simp only []
+  rw [foldl_fill_py _ (fun res A e => setItem A e.1 e.2 ((1 : Rat) / res e.1 e.2))]
+  simp only [Py.abs, step, Py.edge_list]
+  rw [fill_nzCoords _ _ _ h]
+
+/-- **`update_R` as written** (`laplacian = self.admittance_lapacian()`, `sparse_R =
+lil_matrix(pinv(laplacian, rcond=…))`, `_effective_resistances = None`) is the model's `updR` -/
+theorem update_R_body_matches_source (pinv : Nat → Mat → LMat) (p : Py) :
+    (update_R pinv p).abs = (step pinv p.abs .updR).1 := rfl
+
+/-- **`update_resistances` as written** (the whole body, not only its call list) is
+`State.update` -/
+theorem update_resistances_body_matches_source (pinv : Nat → Mat → LMat) (p : Py) (r : Mat)
+    (h : AdjIn p.N p.adj) :
+    (update_resistances pinv p r).abs = p.abs.update pinv r := by
+  unfold update_resistances
+  simp only []
+  rw [update_R_body_matches_source,
+    update_admittance_body_matches_source pinv { p with resistances := r } h]
+  rfl
+
+/-- **`__init__` as written** (everything after `GeoNetwork.__init__`): whatever the attributes
+held before, the object stands for `State.init pinv N adj res` -/
+theorem init_body_matches_source (pinv : Nat → Mat → LMat) (p : Py) (res : Mat)
+    (h : AdjIn p.N p.adj) :
+    (init_tail pinv p res).abs = State.init pinv p.N p.adj res := by
+  unfold init_tail
+  simp only []
+  have := update_resistances_body_matches_source pinv
+    { p with sparse_Adm := pyNoneMat, sparse_R := pyNoneMat } res h
+  simp only [Py.abs] at this ⊢
+  rw [State.mk.injEq] at this
+  obtain ⟨h1, h2, h3, h4, h5, _⟩ := this
+  simp only [h1, h2, h3, h4, h5]
+  rfl
+
+theorem pyInit_matches_model (pinv : Nat → Mat → LMat) (n : Nat) (adj : Adj) (res : Mat)
+    (h : AdjIn n adj) : (pyInit pinv n adj res).abs = State.init pinv n adj res :=
+  init_body_matches_source pinv _ res h
+
+/-- no call changes the number of nodes or the links -/
+theorem step_frame (pinv : Nat → Mat → LMat) (s : State) (op : Op) :
+    (step pinv s op).1.n = s.n ∧ (step pinv s op).1.adj = s.adj := by
+  cases op <;> simp only [step, State.update] <;>
+    first | exact ⟨trivial, trivial⟩ | exact ⟨rfl, rfl⟩
+          | (split <;> first | exact ⟨trivial, trivial⟩ | exact ⟨rfl, rfl⟩)
+
+/-- one call on the object whose mutating methods (and matrix getters) are the regenerated bodies
+= one `step` of the model -/
+theorem pyStep_matches_model (pinv : Nat → Mat → LMat) (p : Py) (op : Op) (h : AdjIn p.N p.adj) :
+    ((pyStep pinv p op).1.abs, (pyStep pinv p op).2) = step pinv p.abs op := by
+  cases op with
+  | update r => simp only [pyStep, step, update_resistances_body_matches_source pinv p r h]
+  | updAdm => simp only [pyStep, update_admittance_body_matches_source pinv p h]; rfl
+  | updR => simp only [pyStep, update_R_body_matches_source pinv p]; rfl
+  | _ => rfl
+
+/-- **whole histories on the code as written**: the machine the driver runs for `histp` requests
+(`pyRun`: regenerated `update_resistances` / `update_admittance` / `update_R` / getters) returns,
+call by call, what the model's `run` returns and ends in the state the model ends in -/
+theorem pyRun_matches_model (pinv : Nat → Mat → LMat) (p : Py) (ops : List Op)
+    (h : AdjIn p.N p.adj) :
+    ((pyRun pinv p ops).1.abs, (pyRun pinv p ops).2) = run pinv p.abs ops := by
+  induction ops generalizing p with
+  | nil => rfl
+  | cons op ops ih =>
+    have hs := pyStep_matches_model pinv p op h
+    have hf := step_frame pinv p.abs op
+    rw [← hs] at hf
+    have h' : AdjIn (pyStep pinv p op).1.N (pyStep pinv p op).1.adj := by
+      have h1 : (pyStep pinv p op).1.N = p.N := hf.1
+      have h2 : (pyStep pinv p op).1.adj = p.adj := hf.2
+      rw [h1, h2]; exact h
+    have := ih (pyStep pinv p op).1 h'
+    simp only [pyRun, run, ← hs, ← this]
+
+/-- **"all of them follow a change of the resistances", about the regenerated code**: construct
+the object by the regenerated `__init__`, drive it through any history of the regenerated update
+methods and the 15 queries — every call returns what a freshly constructed network with the
+current resistances returns (`specRun`), for every `pinv` -/
+theorem history_fresh_source (pinv : Nat → Mat → LMat) (n : Nat) (adj : Adj) (res : Mat)
+    (ops : List Op) (h : AdjIn n adj) :
+    (pyRun pinv (pyInit pinv n adj res) ops).2 = specRun pinv n adj res ops := by
+  have hi := pyInit_matches_model pinv n adj res h
+  have hN : AdjIn (pyInit pinv n adj res).N (pyInit pinv n adj res).adj := by
+    have h1 : (pyInit pinv n adj res).N = n := congrArg State.n hi
+    have h2 : (pyInit pinv n adj res).adj = adj := congrArg State.adj hi
+    rw [h1, h2]; exact h
+  have := pyRun_matches_model pinv (pyInit pinv n adj res) ops hN
+  rw [hi] at this
+  rw [← history_fresh pinv n adj res ops, ← this]
+
+/-- the three-node chain as an adjacency matrix held by a network (nothing outside `3 × 3`;
+`chainAdj` itself is the infinite chain) -/
+def chain3 : Adj := fun i j => decide (i < 3) && decide (j < 3) && chainAdj i j
+
+/-- non-vacuity: `chain3` is `3 × 3`; the regenerated loop on it with resistances 2 fills `1/2`
+on the links and nothing else -/
+example : AdjIn 3 chain3 := by
+  intro i j h
+  simp [chain3] at h
+  omega
+
+example : (update_admittance (fun _ _ => []) (pyInit (fun _ _ => []) 3 chain3 fun _ _ => 2)).sparse_Adm 0 1
+    = 1 / 2 ∧ (update_admittance (fun _ _ => []) (pyInit (fun _ _ => []) 3 chain3 fun _ _ => 2)).sparse_Adm 0 2 = 0 := by
+  decide +kernel
+
+end source_tie6
 
 end Pyunicorn.Circuit
